@@ -49,6 +49,10 @@ const c14BeaconID = "default"
 var c14Watchdog = 5 * time.Second
 var c14ProbeWatchdog = 2 * time.Second
 
+// a call that missed the watchdog is only reported as `hang` if it still has not returned after this much more time
+// (a loaded machine can stall a goroutine for seconds; a deadlock never returns)
+var c14Confirm = 15 * time.Second
+
 // ---------------------------------------------------------------- in-memory collaborators
 
 // memDKGClient records what a process sends; with routes set it also delivers to the in-process peers
@@ -384,6 +388,12 @@ func guarded(wd time.Duration, f func(ctx context.Context) error) (out string, d
 		cancel()
 		return r[0], r[1]
 	case <-time.After(wd):
+	}
+	select {
+	case r := <-ch:
+		cancel()
+		return r[0], r[1] + " (slow: missed the watchdog, returned during the confirmation window)"
+	case <-time.After(c14Confirm):
 		cancel()
 		return "hang", ""
 	}
@@ -709,6 +719,11 @@ func dispatchEngine(args []string, in *bufio.Scanner, out *bufio.Writer) {
 	seed := uint64(1)
 	if len(args) > 0 {
 		fmt.Sscan(args[0], &seed)
+	}
+	if len(args) > 1 { // confirmation window in seconds (replays of known hanging witnesses use a short one)
+		var c int
+		fmt.Sscan(args[1], &c)
+		c14Confirm = time.Duration(c) * time.Second
 	}
 	verbose := os.Getenv("VERIF_C14_VERBOSE") != ""
 	w := newC14World(seed)
